@@ -514,6 +514,11 @@ func (d *dec) mpRequest(xid uint64, body []byte, bb int) *Node {
 		}
 		n.Add(N("mpreq.queue", U("port_no", be32(p)), U("queue_id", be32(p[4:]))))
 		d.pop()
+	case 6, 7, 8, 9, 10, 11, 12, 13, 0xffff:
+		// types whose body the model keeps as bytes (group, meter, table features, port description, experimenter)
+		if len(p) > 0 {
+			n.Add(N("mpreq.raw", B("data", p)))
+		}
 	default:
 		d.fail("bad-type", "multipart request type %d is not modelled", mt)
 	}
